@@ -285,3 +285,46 @@ void bad_hmac_key__md_hmac(uint8_t *mac, const uint8_t *in, size_t in_len, const
 	md_map(mac, opad, 64 + RLC_MD_LEN);
 	RLC_FREE(ipad);
 }
+
+/* ------------------------------------------------------------------ SHIFT-DEAD */
+void ok_shift_prefix(uint8_t *p, int buf_len) {
+	p[0] = buf_len >> 8;
+	p[1] = (uint8_t)(buf_len & 0xff);
+	p[2] = (uint8_t)(buf_len >> 8);
+}
+
+/* the cast binds tighter than the shift: the high octet of the length prefix is always 0 */
+void bad_shift_dead__prefix(uint8_t *p, int buf_len) {
+	p[0] = (uint8_t)buf_len >> 8;
+	p[1] = (uint8_t)buf_len;
+}
+
+/* ------------------------------------------------------------------ KDF-COUNTER */
+static void st14_kdf(uint8_t *key, size_t key_len, const uint8_t *in, size_t in_len, dig_t value) {
+	uint32_t i, j, d = (uint32_t)(key_len / RLC_MD_LEN);
+	uint8_t *buffer = RLC_ALLOCA(uint8_t, in_len + sizeof(uint32_t));
+	if (buffer == NULL) {
+		RLC_THROW(ERR_NO_MEMORY);
+		return;
+	}
+	memcpy(buffer, in, in_len);
+	for (i = value; i < d + value; i++) {
+		j = util_conv_big(i);
+		memcpy(buffer + in_len, &j, sizeof(uint32_t));
+		md_map(key + (i - value) * RLC_MD_LEN, buffer, in_len + sizeof(uint32_t));
+	}
+	RLC_FREE(buffer);
+}
+
+void ok_st__md_mgf(uint8_t *key, size_t key_len, const uint8_t *in, size_t in_len) {
+	st14_kdf(key, key_len, in, in_len, 0);
+}
+
+void ok_st__md_kdf(uint8_t *key, size_t key_len, const uint8_t *in, size_t in_len) {
+	st14_kdf(key, key_len, in, in_len, 1);
+}
+
+/* one helper call shared "to be consistent": RSA-OAEP/PSS still round-trip, no other implementation agrees */
+void bad_kdf_counter__md_mgf(uint8_t *key, size_t key_len, const uint8_t *in, size_t in_len) {
+	st14_kdf(key, key_len, in, in_len, 1);
+}
